@@ -37,6 +37,7 @@ type runner struct {
 	snaps  []snapshot
 	ansIDs map[string]int
 	hist   []string
+	uniHex string
 	custom bool // the tree is topic.NewTree(".", "*", ">"); topics are renamed on the way in
 }
 
@@ -92,7 +93,7 @@ func (r *runner) answers() string {
 	step := len(r.hist)
 	for i, q := range r.uni {
 		mq := r.m(q)
-		tick("queries on " + q + " after " + strings.Join(r.hist, ","))
+		tick("queries on " + hexs(q) + " uni=" + r.uniHex + " history=" + strings.Join(r.hist, ","))
 		fmt.Fprintf(&b, "g%d=%s|m%d=%s|f%d=%s|s%d=%s|x%d=%s|",
 			i, vals(r.keep(fmt.Sprintf("Get(%q)@%d", q, step), r.t.Get(mq))),
 			i, vals(r.keep(fmt.Sprintf("Match(%q)@%d", q, step), r.t.Match(mq))),
@@ -101,7 +102,7 @@ func (r *runner) answers() string {
 			i, first(r.t.SearchFirst(mq)))
 	}
 	fmt.Fprintf(&b, "all=%s|cnt=%d|shape=%s", sortedVals(r.keep(fmt.Sprintf("All()@%d", step), r.t.All())), r.t.Count(), shape(r.t.String(), r.unm))
-	tick("All/Count/String after " + strings.Join(r.hist, ","))
+	tick("All/Count/String uni=" + r.uniHex + " history=" + strings.Join(r.hist, ","))
 	// a result must not be altered by later QUERIES either (e.g. a shared scratch buffer)
 	r.checkSnaps()
 	r.c.Stat("queries", 5*len(r.uni)+3)
@@ -137,8 +138,9 @@ func (r *runner) step(o op) int {
 func (r *runner) quiet(o op) {
 	mo := o
 	mo.topic = r.m(o.topic)
-	apply(r.t, mo)
 	r.hist = append(r.hist, o.text())
+	tick("operation uni=" + r.uniHex + " history=" + strings.Join(r.hist, ","))
+	apply(r.t, mo)
 	r.checkSnaps()
 }
 
@@ -149,6 +151,7 @@ func (r *runner) setUniverse(uni []string) {
 		h[i] = hexs(u)
 	}
 	r.ansIDs = map[string]int{}
+	r.uniHex = strings.Join(h, ",")
 	r.c.Emit("uni %s", strings.Join(h, " "))
 }
 
